@@ -9,8 +9,9 @@ import (
 // ByLines is a sequential reader for a named file, reading lines not including
 // '\n', and it avoids allocations by yielding the underlying buffer slices.
 type ByLines struct {
-	f *os.File
-	b *bufio.Reader
+	f   *os.File
+	b   *bufio.Reader
+	off int64 // off is the file offset just after the last line read (including skipped empty lines).
 }
 
 // OpenByLines opens the named file fn, and returns a ByLines reader.
@@ -33,6 +34,7 @@ func (b *ByLines) Close() error {
 func (b *ByLines) Read() ([]byte, error) {
 	for { // skip over empties
 		bytes, err := b.b.ReadSlice('\n')
+		b.off += int64(len(bytes))
 		if err != nil {
 			return nil, err
 		}
@@ -50,5 +52,10 @@ func (b *ByLines) Rewind() error {
 		return err
 	}
 	b.b.Reset(b.f)
+	b.off = 0
 	return nil
 }
+
+// Offset is the file offset just after the '\n' of the line last returned by
+// Read. Skipped empty lines are accounted for.
+func (b *ByLines) Offset() int64 { return b.off }
